@@ -295,14 +295,25 @@ def build_reactor(case, d, quiet=True, **kw):
 
 def sweep(r, callback=None):
     """Drive the real reactor plane by plane (what temperature_sweep does)."""
-    r.axial_step0()
-    if callback:
-        callback(0, 0.0, 0.0)
-    for i in range(1, len(r.z)):
-        z, dz = r.z[i], r.dz[i - 1]
-        r.axial_step(z, dz, i)
+    dumping = bool(r._options['dump']['any'])
+    if dumping:
+        r._data_setup()
+        r._data_open()
+    try:
+        r.axial_step0()
         if callback:
-            callback(i, z, dz)
+            callback(0, 0.0, 0.0)
+        for i in range(1, len(r.z)):
+            z, dz = r.z[i], r.dz[i - 1]
+            r.axial_step(z, dz, i)
+            if callback:
+                callback(i, z, dz)
+    finally:
+        if dumping:
+            try:
+                r._data_close()
+            except (AttributeError, KeyError):
+                pass
 
 
 def add_axial_regions(rng, case, tname, lower=True, upper=True, models=('simple', '6node')):
